@@ -16,9 +16,14 @@
  * Program errors are detected BEFORE the library is called, exactly where the model faults:
  * a handle the program does not hold -> FAULT:Use_after_free; an operation applied to an object of
  * the wrong class, init of an object that still owns storage -> FAULT:Abort.                      */
+#ifndef _GNU_SOURCE
+#define _GNU_SOURCE 1            /* memfd_create */
+#endif
 #include "common.h"
 #include <stdint.h>
 #include <sys/mman.h>
+#include <sys/syscall.h>
+#include <fcntl.h>
 #include <netdb.h>
 #include <pcre.h>
 
@@ -253,18 +258,37 @@ static void dump_obj(spif_obj_t o)
     k = kind_of(o);
     switch (k) {
         case K_OBJ: putchar('o'); break;
-        case K_STR: printf("s:"); dump_text((unsigned char *) SPIF_STR(o)->s, (long) SPIF_STR(o)->len); break;
-        case K_USTR: printf("u:"); dump_text((unsigned char *) SPIF_USTR(o)->s, (long) SPIF_USTR(o)->len); break;
-        case K_MBUFF: printf("m:"); dump_text((unsigned char *) SPIF_MBUFF(o)->buff, (long) SPIF_MBUFF(o)->len); break;
+        case K_STR:
+            if (spif_str_get_len(SPIF_STR(o)) != SPIF_STR(o)->len || spif_str_get_size(SPIF_STR(o)) != SPIF_STR(o)->size) printf("?getter");
+            printf("s:"); dump_text((unsigned char *) SPIF_STR(o)->s, (long) SPIF_STR(o)->len); break;
+        case K_USTR:
+            if (spif_ustr_get_len(SPIF_USTR(o)) != SPIF_USTR(o)->len || spif_ustr_get_size(SPIF_USTR(o)) != SPIF_USTR(o)->size) printf("?getter");
+            printf("u:"); dump_text((unsigned char *) SPIF_USTR(o)->s, (long) SPIF_USTR(o)->len); break;
+        case K_MBUFF:
+            if (spif_mbuff_get_len(SPIF_MBUFF(o)) != SPIF_MBUFF(o)->len || spif_mbuff_get_size(SPIF_MBUFF(o)) != SPIF_MBUFF(o)->size) printf("?getter");
+            printf("m:"); dump_text((unsigned char *) SPIF_MBUFF(o)->buff, (long) SPIF_MBUFF(o)->len); break;
+        /* members are read through the class's getters AND from the struct: a getter that answers
+           anything but the member prints "?getter" (no model value looks like that) */
+#define LV_GET(expr, member) do { if ((void *) (expr) != (void *) (member)) printf("?getter"); } while (0)
         case K_PAIR:
+            LV_GET(spif_objpair_get_key(SPIF_OBJPAIR(o)), SPIF_OBJPAIR(o)->key);
+            LV_GET(spif_objpair_get_value(SPIF_OBJPAIR(o)), SPIF_OBJPAIR(o)->value);
             printf("p("); dump_obj(SPIF_OBJPAIR(o)->key); putchar(','); dump_obj(SPIF_OBJPAIR(o)->value); putchar(')');
             break;
-        case K_TOK:
-            printf("t("); dump_obj(SPIF_OBJ(SPIF_TOK(o)->src)); putchar(','); dump_obj(SPIF_OBJ(SPIF_TOK(o)->sep));
-            putchar(','); dump_obj(SPIF_OBJ(SPIF_TOK(o)->tokens)); putchar(')');
+        case K_TOK: {
+            spif_tok_t t = SPIF_TOK(o);
+            LV_GET(spif_tok_get_src(t), t->src); LV_GET(spif_tok_get_sep(t), t->sep); LV_GET(spif_tok_get_tokens(t), t->tokens);
+            if (spif_tok_get_quote(t) != t->quote || spif_tok_get_dquote(t) != t->dquote || spif_tok_get_escape(t) != t->escape) printf("?getter");
+            printf("t("); dump_obj(SPIF_OBJ(t->src)); putchar(','); dump_obj(SPIF_OBJ(t->sep));
+            putchar(','); dump_obj(SPIF_OBJ(t->tokens));
+            printf(";%d.%d.%d)", (int) (unsigned char) t->quote, (int) (unsigned char) t->dquote, (int) (unsigned char) t->escape);
             break;
+        }
         case K_URL: {
             spif_url_t u = (spif_url_t) o;
+            LV_GET(spif_url_get_proto(u), u->proto); LV_GET(spif_url_get_user(u), u->user); LV_GET(spif_url_get_passwd(u), u->passwd);
+            LV_GET(spif_url_get_host(u), u->host); LV_GET(spif_url_get_port(u), u->port); LV_GET(spif_url_get_path(u), u->path);
+            LV_GET(spif_url_get_query(u), u->query);
             printf("U("); dump_text((unsigned char *) SPIF_STR(o)->s, (long) SPIF_STR(o)->len); putchar(';');
             dump_obj(SPIF_OBJ(u->proto)); putchar(','); dump_obj(SPIF_OBJ(u->user)); putchar(',');
             dump_obj(SPIF_OBJ(u->passwd)); putchar(','); dump_obj(SPIF_OBJ(u->host)); putchar(',');
@@ -273,6 +297,7 @@ static void dump_obj(spif_obj_t o)
             break;
         }
         case K_RE:
+            if (spif_regexp_get_flags((spif_regexp_t) o) != ((spif_regexp_t) o)->flags) printf("?getter");
             printf("r:"); dump_text((unsigned char *) SPIF_STR(o)->s, (long) SPIF_STR(o)->len);
             printf(":%d:", ((spif_regexp_t) o)->flags);
             dump_re_sig((spif_regexp_t) o);
@@ -637,6 +662,142 @@ static void run_op(int n, char **t)
         }
         (void) sink;
         printf("ok");
+    }
+    else if (IS("setq")) {
+        long cv; spif_tok_t tk; int ok;
+        NEED(3); if (!held(t[1], &a)) return;
+        cv = atol(t[3]);
+        if (cv < 0 || cv > 255 || hk[a] != K_TOK || !t[2][0] || t[2][1] || !strchr("qde", t[2][0])) { fault("Abort"); return; }
+        tk = SPIF_TOK(hp[a]);
+        /* setter, then the getter must hand back what was set */
+        if (t[2][0] == 'q') ok = spif_tok_set_quote(tk, (spif_char_t) cv) && spif_tok_get_quote(tk) == (spif_char_t) cv;
+        else if (t[2][0] == 'd') ok = spif_tok_set_dquote(tk, (spif_char_t) cv) && spif_tok_get_dquote(tk) == (spif_char_t) cv;
+        else ok = spif_tok_set_escape(tk, (spif_char_t) cv) && spif_tok_get_escape(tk) == (spif_char_t) cv;
+        putchar(ok ? '1' : 'G');
+    }
+    else if (IS("settoks")) {
+        spif_list_t l;
+        NEED(2); if (!held(t[1], &a)) return;
+        if (!held_opt(t[2], &b)) return;
+        if (b == a || hk[a] != K_TOK || (b >= 0 && !is_list(hk[b]))) { fault("Abort"); return; }
+        l = b < 0 ? (spif_list_t) NULL : SPIF_LIST(hp[b]);
+        if (!spif_tok_set_tokens(SPIF_TOK(hp[a]), l) || spif_tok_get_tokens(SPIF_TOK(hp[a])) != l) { putchar('G'); return; }
+        if (b >= 0) { hk[b] = K_NONE; hp[b] = NULL; }       /* the list changed hands */
+        putchar('1');
+    }
+    else if (IS("tlremove_at") || IS("tlappend")) {
+        /* the caller edits the list spif_tok_get_tokens() hands out */
+        spif_list_t l;
+        NEED(2); if (!held(t[1], &a)) return;
+        if (IS("tlappend")) {
+            if (!strcmp(t[1], t[2])) { fault("Abort"); return; }
+            if (!held(t[2], &b)) return;
+            if (!storable(hk[b])) { fault("Abort"); return; }
+        }
+        if (hk[a] != K_TOK) { fault("Abort"); return; }
+        l = spif_tok_get_tokens(SPIF_TOK(hp[a]));
+        if (!l || !is_list(kind_of(SPIF_OBJ(l)))) { fault("Abort"); return; }
+        if (IS("tlremove_at")) hand_back_obj(SPIF_LIST_REMOVE_AT(l, (spif_listidx_t) atol(t[2])));
+        else {
+            spif_bool_t r = SPIF_LIST_APPEND(l, SPIF_OBJ(hp[b]));
+            if (r) { hk[b] = K_NONE; hp[b] = NULL; }
+            putchar(r ? '1' : '0');
+        }
+    }
+    else if (IS("mappend")) {
+        /* a text member changed in place through the pointer its getter hands out */
+        spif_obj_t m = NULL; int sel, mk;
+        NEED(3); if (!held(t[1], &a)) return;
+        sel = atoi(t[2]);
+        if (sel < 0) { fault("Abort"); return; }
+        if (hk[a] == K_TOK && sel < 2) m = SPIF_OBJ(sel == 0 ? spif_tok_get_src(SPIF_TOK(hp[a])) : spif_tok_get_sep(SPIF_TOK(hp[a])));
+        else if (hk[a] == K_PAIR && sel < 2) m = sel == 0 ? spif_objpair_get_key(SPIF_OBJPAIR(hp[a])) : spif_objpair_get_value(SPIF_OBJPAIR(hp[a]));
+        else if (hk[a] == K_URL && sel < 7) {
+            spif_url_t u = (spif_url_t) hp[a];
+            switch (sel) {
+                case 0: m = SPIF_OBJ(spif_url_get_proto(u)); break;
+                case 1: m = SPIF_OBJ(spif_url_get_user(u)); break;
+                case 2: m = SPIF_OBJ(spif_url_get_passwd(u)); break;
+                case 3: m = SPIF_OBJ(spif_url_get_host(u)); break;
+                case 4: m = SPIF_OBJ(spif_url_get_port(u)); break;
+                case 5: m = SPIF_OBJ(spif_url_get_path(u)); break;
+                default: m = SPIF_OBJ(spif_url_get_query(u)); break;
+            }
+        } else { fault("Abort"); return; }
+        if (!m) { fault("Abort"); return; }
+        mk = kind_of(m);
+        if (mk == K_STR) { char *s = lv_unhex_str(t[3]); spif_str_append_from_ptr(SPIF_STR(m), (spif_charptr_t) s); free(s); }
+        else if (mk == K_USTR) { char *s = lv_unhex_str(t[3]); spif_ustr_append_from_ptr(SPIF_USTR(m), (spif_charptr_t) s); free(s); }
+        else if (mk == K_MBUFF) { size_t len; unsigned char *p = lv_unhex(t[3], &len); spif_mbuff_append_from_ptr(SPIF_MBUFF(m), p, (spif_memidx_t) len); free(p); }
+        else { fault("Abort"); return; }
+        putchar('1');
+    }
+    else if (IS("setlen")) {
+        long k; int ok = 0;
+        NEED(2); if (!held(t[1], &a)) return;
+        k = atol(t[2]);
+        if (k < 0) {
+            /* the size / len setters given what the getters answer: nothing may change */
+            if (hk[a] == K_STR) { spif_str_t s = SPIF_STR(hp[a]); ok = spif_str_set_size(s, spif_str_get_size(s)) && spif_str_set_len(s, spif_str_get_len(s)); }
+            else if (hk[a] == K_USTR) { spif_ustr_t s = SPIF_USTR(hp[a]); ok = spif_ustr_set_size(s, spif_ustr_get_size(s)) && spif_ustr_set_len(s, spif_ustr_get_len(s)); }
+            else if (hk[a] == K_MBUFF) { spif_mbuff_t s = SPIF_MBUFF(hp[a]); ok = spif_mbuff_set_size(s, spif_mbuff_get_size(s)) && spif_mbuff_set_len(s, spif_mbuff_get_len(s)); }
+            else { fault("Abort"); return; }
+        } else {
+            spif_mbuff_t s;
+            if (hk[a] != K_MBUFF || k > (long) SPIF_MBUFF(hp[a])->len) { fault("Abort"); return; }
+            s = SPIF_MBUFF(hp[a]);
+            ok = spif_mbuff_set_len(s, (spif_memidx_t) k) && spif_mbuff_get_len(s) == (spif_memidx_t) k;
+        }
+        putchar(ok ? '1' : 'G');
+    }
+    else if (IS("fnew")) {
+        /* fnew <str|ustr|mbuff|tok> <fp|fd> <reg|pipe|closed|bad> <content> <pos> */
+        int cls, fp_form, fd = -1, wfd = -1; size_t len; unsigned char *data; long pos; FILE *fp = NULL; spif_obj_t o = NULL;
+        NEED(5);
+        cls = !strcmp(t[1], "str") ? K_STR : !strcmp(t[1], "ustr") ? K_USTR : !strcmp(t[1], "mbuff") ? K_MBUFF : !strcmp(t[1], "tok") ? K_TOK : K_NONE;
+        fp_form = !strcmp(t[2], "fp");
+        if (cls == K_NONE || (!fp_form && strcmp(t[2], "fd"))) { printf("HARNESS-ERROR:fnew"); faulted = 1; return; }
+        data = lv_unhex(t[4], &len); pos = atol(t[5]);
+        if (pos < 0 || (size_t) pos > len || (!strcmp(t[3], "closed") && fp_form) || (!strcmp(t[3], "pipe") && pos != 0)) {
+            free(data); fault("Abort"); return;
+        }
+        if (!strcmp(t[3], "reg") || !strcmp(t[3], "closed")) {
+            fd = (int) syscall(SYS_memfd_create, "lv-stream", 0);
+            if (fd < 0 || (len && write(fd, data, len) != (ssize_t) len) || lseek(fd, (off_t) pos, SEEK_SET) != (off_t) pos) {
+                printf("HARNESS-ERROR:memfd"); faulted = 1; free(data); return;
+            }
+            if (!strcmp(t[3], "closed")) close(fd);          /* the number of a descriptor that is no longer open */
+        } else if (!strcmp(t[3], "pipe")) {
+            int p2[2];
+            if (len > 60000 || pipe(p2) < 0 || (len && write(p2[1], data, len) != (ssize_t) len)) { printf("HARNESS-ERROR:pipe"); faulted = 1; free(data); return; }
+            close(p2[1]); fd = p2[0]; wfd = -1;
+        } else if (!strcmp(t[3], "bad")) {
+            fd = -1;
+        } else { printf("HARNESS-ERROR:fnew-kind"); faulted = 1; free(data); return; }
+        free(data);
+        (void) wfd;
+        if (fp_form) {
+            if (fd >= 0) {
+                fp = fdopen(fd, "r");
+                if (!fp || (!strcmp(t[3], "reg") && fseek(fp, pos, SEEK_SET) != 0)) { printf("HARNESS-ERROR:fdopen"); faulted = 1; return; }
+            }
+            switch (cls) {
+                case K_STR: o = SPIF_OBJ(spif_str_new_from_fp(fp)); break;
+                case K_USTR: o = SPIF_OBJ(spif_ustr_new_from_fp(fp)); break;
+                case K_MBUFF: o = SPIF_OBJ(spif_mbuff_new_from_fp(fp)); break;
+                default: o = SPIF_OBJ(spif_tok_new_from_fp(fp)); break;
+            }
+            if (fp) fclose(fp);
+        } else {
+            switch (cls) {
+                case K_STR: o = SPIF_OBJ(spif_str_new_from_fd(fd)); break;
+                case K_USTR: o = SPIF_OBJ(spif_ustr_new_from_fd(fd)); break;
+                case K_MBUFF: o = SPIF_OBJ(spif_mbuff_new_from_fd(fd)); break;
+                default: o = SPIF_OBJ(spif_tok_new_from_fd(fd)); break;
+            }
+            if (fd >= 0 && strcmp(t[3], "closed")) close(fd);
+        }
+        hand_back_obj(o);
     }
     else if (IS("far")) {
         NEED(0);
